@@ -65,7 +65,12 @@
 //! [RFC 4532]: https://datatracker.ietf.org/doc/html/rfc3542
 
 use std::io;
+#[cfg(not(quandary_verif))]
 use std::net::{SocketAddr, TcpStream};
+#[cfg(quandary_verif)]
+use std::net::SocketAddr;
+#[cfg(quandary_verif)]
+use crate::verif::net::TcpStream;
 use std::time::Duration;
 
 /// The API that the concrete, target-specific [`TcpListener`] must
@@ -119,11 +124,13 @@ pub(crate) trait UdpSocketApi: Clone + Sized {
 }
 
 /// The implementation of [`TcpListener`] for this target.
+#[cfg(not(quandary_verif))]
 #[cfg_attr(unix, path = "unix_tcp.rs")]
 #[cfg_attr(not(unix), path = "std_tcp.rs")]
 mod tcp_impl;
 
 /// The implementation of [`UdpSocket`] for this target.
+#[cfg(not(quandary_verif))]
 #[cfg_attr(
     any(target_os = "linux", target_os = "netbsd", target_os = "freebsd"),
     path = "unix_udp_localaddr.rs"
@@ -134,8 +141,12 @@ mod tcp_impl;
 )]
 mod udp_impl;
 
+#[cfg(not(quandary_verif))]
 pub(crate) use tcp_impl::TcpListener;
+#[cfg(not(quandary_verif))]
 pub(crate) use udp_impl::UdpSocket;
+#[cfg(quandary_verif)]
+pub(crate) use crate::verif::net::{TcpListener, UdpSocket};
 
 /// Whether local address selection is supported for UDP sockets on this
 /// target.
@@ -240,5 +251,12 @@ mod tokio {
     }
 }
 
+#[cfg(not(quandary_verif))]
 #[cfg(feature = "tokio")]
 pub(crate) use self::{tokio::AsyncUdpSocketApi, udp_impl::AsyncUdpSocket};
+#[cfg(quandary_verif)]
+#[cfg(feature = "tokio")]
+pub(crate) use self::tokio::AsyncUdpSocketApi;
+#[cfg(quandary_verif)]
+#[cfg(feature = "tokio")]
+pub(crate) use crate::verif::tokio_net::AsyncUdpSocket;
